@@ -294,7 +294,9 @@ class Session(BaseSession):
             q = Query(
                 expression=expression,
                 sql=sql,
-                attrs=attrs,
+                # Each statement of the text gets the client's attributes, not what an
+                # earlier statement's handler made of them
+                attrs=dict(attrs),
                 _middlewares=self.middlewares,
                 _query=self.query,
             )
